@@ -19,6 +19,9 @@ type connHooks struct {
 	WantEE   bool
 	ClientEE []byte
 	GotEE    bool
+	// NoChoiceMade: set by a scenario's Out when it turned out that the value it was to force is one the
+	// hello did offer (nothing unoffered went out: nothing to judge)
+	NoChoiceMade bool
 	// CookieHRR: the server first sends a HelloRetryRequest carrying only this cookie;
 	// AcceptCookie: it tolerates a cookie (added to its HRR by Out) in the second ClientHello.
 	CookieHRR    []byte
